@@ -472,9 +472,12 @@ class The(ResultQuantifier[T]):
     """
 
     def evaluate(self) -> TypingUnion[Iterable[T], T, UnificationDict]:
-        result = self._evaluate_()
-        result = self._process_result_(result)
-        self._reset_cache_()
+        try:
+            result = self._evaluate_()
+            result = self._process_result_(result)
+        finally:
+            # also when the evaluation raised, otherwise the next evaluation starts from stale state.
+            self._reset_cache_()
         return result
 
     def _evaluate__(self, sources: Optional[Dict[int, HashedValue]] = None, yield_when_false: bool = False) -> Iterable[Dict[int, HashedValue]]:
@@ -496,8 +499,7 @@ class The(ResultQuantifier[T]):
                 result.update(sources)
             else:
                 raise MultipleSolutionFound(result, sol)
-        if result is None:
-            self._is_false_ = True
+        self._is_false_ = result is None
         if self._is_false_:
             if self._yield_when_false_:
                 result = sources
